@@ -129,3 +129,56 @@ def factor_params(draw, kind, R, D, kappa=100.0):
     if kind == "density":
         return draw(measure_params("pdf", R, D, kappa))
     raise ValueError(kind)
+
+
+# ----------------------------------------------------------------------------- conditionals
+COND_KINDS = ["full", "diag", "identity", "identity_diag", "nn"]
+COND_CTORS = ["Sigma", "Lambda", "all"]
+
+
+@st.composite
+def cond_params(draw, kind, R, Dx, Dy, kappa=100.0, zero_M=False):
+    """Defining inputs of a linear-Gaussian conditional p(y|x) = N(Mx+b, Sigma)."""
+    diag = kind in ("diag", "identity_diag")
+    p = {"kind": kind, "Dx": Dx, "Dy": Dy, "R": R}
+    p["ctor"] = draw(st.sampled_from(COND_CTORS))
+    if kind in ("identity", "identity_diag"):
+        assert Dx == Dy
+        p["Sigma"] = draw(spd(R, Dy, kappa=kappa, diag=diag))
+        return p
+    if kind == "nn":
+        # Sigma has R=1; the batch comes from the control input u [R, Du]
+        Du = draw(st.integers(1, 2))
+        H = draw(st.integers(1, 3))
+        p["Sigma"] = draw(spd(1, Dy, kappa=kappa))
+        p["Du"] = Du
+        p["W1"] = draw(arr((Du, H), -1, 1))
+        p["b1"] = draw(arr((H,), -1, 1))
+        p["W2"] = draw(arr((H, Dy * (Dx + 1)), -1.5, 1.5))
+        p["b2"] = draw(arr((Dy * (Dx + 1),), -1, 1))
+        p["u"] = draw(arr((R, Du), -2, 2))
+        return p
+    M = draw(arr((R, Dy, Dx), -1.5, 1.5))
+    if zero_M:
+        M = np.zeros_like(M)
+    p["M"] = M
+    p["b"] = draw(arr((R, Dy)))
+    p["Sigma"] = draw(spd(R, Dy, kappa=kappa, diag=diag))
+    return p
+
+
+def cond_np(p):
+    """(M, b, Sigma) [R,...] in numpy from the defining inputs."""
+    kind = p["kind"]
+    Sig = np.asarray(p["Sigma"], float)
+    if kind in ("identity", "identity_diag"):
+        R, D = Sig.shape[0], Sig.shape[1]
+        return np.tile(np.eye(D)[None], (R, 1, 1)), np.zeros((R, D)), Sig
+    if kind == "nn":
+        u = np.asarray(p["u"], float)
+        out = np.tanh(u @ np.asarray(p["W1"], float) + np.asarray(p["b1"], float)) @ np.asarray(p["W2"], float) + np.asarray(p["b2"], float)
+        Dx, Dy = p["Dx"], p["Dy"]
+        M = out[:, : Dy * Dx].reshape((-1, Dy, Dx))
+        b = out[:, Dy * Dx:]
+        return M, b, np.tile(Sig, (u.shape[0], 1, 1))
+    return np.asarray(p["M"], float), np.asarray(p["b"], float), Sig
